@@ -49,7 +49,9 @@ def run(prop, tier, seed, replay=None):
         jobs += [("r%d" % i, None, False, LIMITS) for i in range(nrand)]
         backends = store.BACKENDS
     else:
-        jobs = [("replay", replay["contents"], True, LIMITS)]
+        rec = replay.get("record") or {}
+        how = {"w": rec["w"], "lim": rec.get("lim", -1)} if rec.get("w") else True
+        jobs = [("replay", [tuple(x) for x in replay["contents"]], how, LIMITS)]
         backends = [replay["backend"]]
     runs = reads.run_batch(jobs, seed, backends=backends)
     traces = [r["trace"] for r in runs]
